@@ -98,7 +98,9 @@ func (scb *SchemaClientBoundImpl) Retrieve(ctx context.Context, path *sdcpb.Path
 	})
 	entry.schemaRsp = schema
 	entry.err = err
-	entry.ready = true
+	// only a successful answer is kept; after an error (e.g. the schema server
+	// being unreachable for a moment) the next caller asks again
+	entry.ready = err == nil
 
 	return entry.Get()
 }
